@@ -33,7 +33,7 @@ PROPS = {
         design_ref='DESIGN.md section 5, C07',
         not_covered=[
             'mount / over-mount / umount / index allocation histories (Vfs::mount*, insert_mount_locked, umount, allocate_fs_idx): ArcSwap stores and atomics on &self; routing is proved for an ARBITRARY table state satisfying Vfs::wf()',
-            'readdir / readdirplus of the VFS and of PseudoFs (&mut dyn FnMut closures): so "the same number in lookup, getattr, readdir and readdirplus" is covered for lookup/getattr/entry-returning operations only',
+            'Vfs::readdir / readdirplus: the four entry-rewriting closures are verified after closure lifting (R17); that the backend calls them for its entries, and PseudoFs::do_readdir itself, are not covered',
             'that result-less forget reaches the backend at least once (capabilities can forbid calls, not demand them)',
         ],
         trusted=['T3 ArcSwap as a sequential cell (`cur`), std HashMap/Vec via vstd, Arc clone = same value (axiom_arc_cloned), Result::and_then by assume_specification',
@@ -44,7 +44,6 @@ PROPS = {
         design_ref='DESIGN.md section 5, C14',
         not_covered=[
             'slot hygiene across mount / over-mount / umount histories (mount_with_id_mapping, insert_mount_locked, umount store through ArcSwap on &self): the clause "regardless of which mounts previously occupied its slot" is NOT decided (DESIGN.md section 7, D6)',
-            'readdirplus closures (owner ids of entries delivered by readdirplus)',
             'the order of the two stores in mount_with_id_mapping (mapping before insertion)',
         ],
         trusted=['T3 as for C07', 'T8 every configured mapping satisfies internal+range <= 2^32 and external+range <= 2^32 (map_ok; Vfs::new never validates it - DESIGN.md section 7, O2)'],
